@@ -100,6 +100,33 @@ def tens(o):
     return None if o is None else o.detach().clone()
 
 
+class CGRecorder:
+    """records the probe columns handed to linear_cg (the first n_tridiag columns of its rhs) for operators whose
+    result carries no autograd node (no floating-point leaf, e.g. sums of identities): the harness-process
+    monkeypatch the design allows; where the autograd node exists both readings must coincide"""
+
+    def __init__(self):
+        import linear_operator.utils as U
+        self.U = U
+        self.orig = U.linear_cg
+        self.probes = None
+
+    def __enter__(self):
+        orig = self.orig
+
+        def wrapped(matmul_closure, rhs, *a, **kw):
+            nt = kw.get("n_tridiag", a[0] if a else 0)
+            if nt and self.probes is None:
+                self.probes = rhs.detach()[..., :nt].clone()
+            return orig(matmul_closure, rhs, *a, **kw)
+        self.U.linear_cg = wrapped
+        return self
+
+    def __exit__(self, *a):
+        self.U.linear_cg = self.orig
+        return False
+
+
 def run_impl(case, defaults):
     """returns obs dict: {"raise": .., "msg": ..} or {"iq": tensor/None, "ld": tensor/None, "probes", "pc"}"""
     spec = case["spec"]
@@ -110,7 +137,7 @@ def run_impl(case, defaults):
     st = case["st"]
     with warnings.catch_warnings():
         warnings.simplefilter("ignore")
-        with Ctxs(st, defaults):
+        with Ctxs(st, defaults), CGRecorder() as rec:
             try:
                 if case.get("warm"):
                     try:        # fill the root_decomposition cache first (C12: must be transparent); failures of
@@ -131,14 +158,33 @@ def run_impl(case, defaults):
     for o in (ld, iq):
         if isinstance(o, torch.Tensor) and o.grad_fn is not None and node is None:
             node = find_node(o.grad_fn)
+    probes = None if node is None else node.probe_vectors.detach().clone()
+    if probes is not None and rec.probes is not None and not (
+            probes.shape == rec.probes.shape and torch.equal(probes, rec.probes)):
+        return {"raise": "HarnessInconsistency", "msg": "probe vectors of the autograd node differ from those handed to linear_cg"}
+    if probes is None:
+        probes = rec.probes
     obs = {"iq": iq if isinstance(iq, str) else tens(iq), "ld": ld if isinstance(ld, str) else tens(ld),
-           "probes": None if node is None else node.probe_vectors.detach().clone(), "pc": None}
+           "probes": probes, "pc": None}
     ad = added_diag_of(op)
     if ad is not None:
         d = ad._diag_tensor._diagonal().detach().clone()
         if ad._piv_chol_self is not None and ad._q_cache is not None:
             L = ad._piv_chol_self.detach().clone()
             obs["pc"] = (L.shape[-1], L, d)
+        elif probes is not None and st["mps"] > 0 and ad.size(-1) >= st["minps"]:
+            # the call ran on a rebuilt copy (evaluate_kernel of a lazily evaluated base): the preconditioner cache is
+            # not on this object; recompute the (deterministic) pivoted Cholesky factor the copy used
+            with warnings.catch_warnings():
+                warnings.simplefilter("ignore")
+                with Ctxs(st, defaults):
+                    try:
+                        ev = ad.evaluate_kernel()
+                        L = ev._linear_op.pivoted_cholesky(rank=st["mps"]).detach().clone()
+                        # NaNs in the factor: the library warns and continues WITHOUT preconditioner (pc stays None)
+                        obs["pc"] = None if torch.isnan(L).any() else (L.shape[-1], L, d)
+                    except Exception:
+                        obs["pc"] = (0, torch.zeros(*d.shape, 0, dtype=F64), d)
         else:
             obs["pc"] = (0, torch.zeros(*d.shape, 0, dtype=F64), d)
     return obs
